@@ -40,7 +40,7 @@ theorem C10_out_refused (c : Conn) (sid : Int) (hs : List Header) (es : Bool) (h
     wp (sendHeaders sid hs es none none none) (fun _ _ => False)
       (fun e c' => e.isInstance .TooManyStreamsError = true ∧ c'.out = c.out ∧ c'.sent = c.sent ∧
         hasStream c' sid = false ∧ c'.highestOut = c.highestOut) c := by
-  unfold sendHeaders openOutboundStreams
+  unfold sendHeaders sendHeadersTail addPriority openOutboundStreams
   wps
   simp only [Option.isSome_none, Bool.or_self, Bool.false_eq_true, if_false, hcl, Bool.not_true, hnew, if_true,
     Bool.not_false]
